@@ -1,12 +1,11 @@
 import McpModel.Base.Proto
-import McpModel.Negotiate.Model
-import McpModel.Negotiate.Peer
+import McpModel.Negotiate.Monitor
 /-!
 Driver for E4 (C07).  One record per cell of the configuration matrix:
 `connect <default|s<hex>> <mem|pipe|sse|stateful|stateless> <none|m<bits>> <json 0/1> <store 0/1>`
 with the implementation's observation `error` or `ok <negotiated hex> <list> <call>`.
-The model answer is `Negotiate.connect`; the monitor is the property itself, evaluated on what the
-implementation did: negotiated ∈ SDK-supported ∧ the (wrapped) transport supports it ∧ never
+The model answer is `Negotiate.connect`; the monitor (`Monitor.monitor`, typed; this file keeps the
+token parser and the clause texts) is the property itself, evaluated on what the implementation did: negotiated ∈ SDK-supported ∧ the (wrapped) transport supports it ∧ never
 2026-07-28 over SSE / stateful HTTP ∧ = requested when mutually supported ∧ the session lists and
 calls tools ∧ connect does not fail when the requested version is mutually supported or a legacy
 version is served (fallback).  F10's shape has its own clause.
@@ -22,23 +21,6 @@ model's outcome for every peer: `peerVerdict_model`) plus "the session lists and
 -/
 namespace Negotiate
 open Proto Generated.Negotiate
-
-/-- Go's `httpguts.ValidHeaderFieldValue`: the request can be sent at all. -/
-def headerValid (s : String) : Bool :=
-  s.toUTF8.toList.all (fun b => (b ≥ 0x20 && b != 0x7f) || b == 0x09)
-
-/-- `headerValid` plus "unchanged by header trimming" (the SDK server compares the header with the
-body's `_meta` version; a foreign peer is not assumed to). -/
-def headerSafe (s : String) : Bool :=
-  let bs := s.toUTF8.toList
-  headerValid s &&
-    (match bs.head? with | some b => b != 0x20 && b != 0x09 | none => true) &&
-    (match bs.getLast? with | some b => b != 0x20 && b != 0x09 | none => true)
-
-def wireFor (k : TKind) : String → Bool :=
-  match k with
-  | .mem | .pipe | .sse => fun _ => true   -- the SSE client does not send Mcp-Protocol-Version
-  | _ => headerSafe
 
 def parseKind : String → Option TKind
   | "mem" => some .mem
@@ -66,31 +48,41 @@ def showOutcome : Outcome → String
   | .error => "error"
   | .negotiated v => s!"ok {stringToHex v} ok ok"
 
-def isLegacy (v : String) : Bool := decide (v < modern)
-
-def monitor (req : Option String) (S : Setup) (impl : String) : Option String :=
-  let pv := startVersion req
-  let mutualOK := supportedProtocolVersions.contains pv && transportSupports S pv
+/-- The implementation's observation, typed: `error` or `ok <negotiated hex> <list> <call>`. -/
+def parseObs (impl : String) : Obs :=
   match words impl with
   | ["ok", vh, l, c] =>
     match hexToString vh with
-    | none => some "C07: unreadable negotiated version"
-    | some v =>
-      if !supportedProtocolVersions.contains v then some "C07: negotiated version is not supported by the SDK"
-      else if !transportSupports S v then
-        if isLegacy v then some "C07: F10 initialize negotiated a legacy version that the transport does not advertise"
-        else some "C07: negotiated version is not supported by the transport"
-      else if (S.kind == .sse || S.kind == .stateful) && !isLegacy v then
-        some "C07: 2026-07-28 negotiated over SSE or a stateful HTTP endpoint"
-      else if mutualOK && v != pv then some "C07: requested version is mutually supported but a different one was negotiated"
-      else if l != "ok" || c != "ok" then some "C07: connected session cannot list and call tools"
-      else none
-  | ["error"] =>
-    if mutualOK then some "C07: connect failed although the requested version is mutually supported"
-    else if (advertised S).any isLegacy then
-      some "C07: no fallback to initialize: connect failed although the transport serves a legacy version"
-    else none
-  | _ => some "C07: connect crashed or produced no outcome"
+    | none => .garbled
+    | some v => .ok v (l == "ok") (c == "ok")
+  | ["error"] => .error
+  | _ => .other
+
+def clauseText : Clause → String
+  | .unreadable => "C07: unreadable negotiated version"
+  | .notSDK => "C07: negotiated version is not supported by the SDK"
+  | .f10 => "C07: F10 initialize negotiated a legacy version that the transport does not advertise"
+  | .notTransport => "C07: negotiated version is not supported by the transport"
+  | .modernOnStateful => "C07: 2026-07-28 negotiated over SSE or a stateful HTTP endpoint"
+  | .mutualDiff => "C07: requested version is mutually supported but a different one was negotiated"
+  | .cannotUse => "C07: connected session cannot list and call tools"
+  | .mutualErr => "C07: connect failed although the requested version is mutually supported"
+  | .noFallback => "C07: no fallback to initialize: connect failed although the transport serves a legacy version"
+  | .crashed => "C07: connect crashed or produced no outcome"
+
+def peerClauseText : PClause → String
+  | .f30 => "C07: F30 the client negotiated the requested version although this SDK does not implement it (a DiscoverResult listing it was taken at face value)"
+  | .notSDK => "C07: negotiated version is not supported by the SDK (the client accepted a peer's answer naming a version it does not implement)"
+  | .legacyNotInit => "C07: a legacy version was negotiated that the peer did not answer the initialize handshake with"
+  | .notOffered => "C07: negotiated version was offered neither by the peer's DiscoverResult nor by its initialize answer"
+  | .mutualDiff => "C07: requested version is mutually supported but a different one was negotiated"
+  | .mutualErr => "C07: connect failed although the requested version is mutually supported"
+  | .fallbackLegacy => "C07: connect failed although the peer answers the requested legacy initialize handshake with a supported version"
+  | .fallbackUnavailable => "C07: no fallback to initialize: connect failed although discovery is unavailable and the peer answers initialize with a supported version"
+  | .fallbackNoOverlap => "C07: no fallback to initialize: connect failed although discovery yields no modern overlap and the peer answers initialize with a supported version"
+  | .cannotUse => "C07: connected session cannot list and call tools"
+  | .unreadable => "C07: unreadable negotiated version"
+  | .crashed => "C07: connect crashed or produced no outcome"
 
 /-- `<hex>.<hex>…` or `-`. -/
 def parseList (t : String) : Option (List String) :=
@@ -122,18 +114,6 @@ def parseInit (t : String) : Option (String → Option String) :=
   else if t.startsWith "a" then (hexToString (t.drop 1).toString).map fun v => fun _ => some v
   else none
 
-def monitorPeer (req : Option String) (P : Peer) (impl : String) : Option String :=
-  match words impl with
-  | ["ok", vh, l, c] =>
-    match hexToString vh with
-    | none => some "C07: unreadable negotiated version"
-    | some v =>
-      match peerVerdict req P (.negotiated v) with
-      | some cl => some cl
-      | none => if l != "ok" || c != "ok" then some "C07: connected session cannot list and call tools" else none
-  | ["error"] => peerVerdict req P .error
-  | _ => some "C07: connect crashed or produced no outcome"
-
 /-- State: the number of connections the case's Server has served so far. -/
 def engine : Engine Nat where
   init := 0
@@ -145,14 +125,14 @@ def engine : Engine Nat where
       | some req, some kind, some subset =>
         let S : Setup := { kind := kind, subset := subset, json := j == "1", store := st == "1" }
         let out := connect (wireFor kind) req S
-        (n, { model := showOutcome out, violated := monitor req S impl })
+        (n, { model := showOutcome out, violated := (monitor req S (parseObs impl)).map clauseText })
       | _, _, _ => (n, { model := "bad-op" })
     | ["step", r, k, sub, j, st, _hold] =>
       match parseReq r, parseKind k, parseSubset sub with
       | some req, some kind, some subset =>
         let S : Setup := { kind := kind, subset := subset, json := j == "1", store := st == "1" }
         let out := ((Srv.mk []).step wireFor ⟨req, S⟩).2
-        let v := (monitor req S impl).map fun cl =>
+        let v := ((monitor req S (parseObs impl)).map clauseText).map fun cl =>
           if n == 0 then cl else s!"{cl} [connection #{n + 1} to one Server value: the version must fit THIS connection's transport, whatever the Server served before]"
         (n + 1, { model := showOutcome out, violated := v })
       | _, _, _ => (n, { model := "bad-op" })
@@ -162,7 +142,7 @@ def engine : Engine Nat where
       match parseReq r, parseDisc http d, parseInit i with
       | some req, some disc, some ini =>
         let P : Peer := { discover := disc, init := ini }
-        (n, { model := showOutcome (connectPeer req P), violated := monitorPeer req P impl })
+        (n, { model := showOutcome (connectPeer req P), violated := (monitorPeer req P (parseObs impl)).map peerClauseText })
       | _, _, _ => (n, { model := "bad-op" })
     | _ => (n, { model := "bad-op" })
 
